@@ -5,7 +5,7 @@
 From Coq Require Import List Arith Bool Permutation.
 From TC.Lib Require Import Assoc.
 From TC.Model Require Import Cache CacheGhost.
-From TC.Proofs Require Import CacheInv CacheViews CacheFifo CacheRun CacheResize CacheResize2.
+From TC.Proofs Require Import CacheInv CacheViews CacheFifo CacheRun CacheResize CacheResize2 CacheResize3.
 From TC.Props Require Import C01.
 Import ListNotations.
 
@@ -83,6 +83,22 @@ Section C13.
     eapply (inv_nd keqb s H). apply In_peek; [apply (Inv_nodup_ids keqb s H)|exact Hin].
   Qed.
 
+  (* the asynchronous sweeps spawned by the Sets of a replay (`go f.Sweep()`) are irrelevant: for any
+     sequence of insertions of pairwise distinct new keys, extra Sweeps after any of them (flag true)
+     leave the same state after the final Sweep as no extra Sweeps at all *)
+  Theorem C13_sweeps_irrelevant p0 c0 (h : list label) (l : list (K * V * bool)) :
+    reachable p0 c0 h ->
+    let s := run keqb (init p0 c0) h in
+    NoDup (map (fun kvx => fst (fst kvx)) l) ->
+    (forall kvx, In kvx l -> lookup keqb (fst (fst kvx)) (index s) = None) ->
+    sweep (fold_left (ins_x keqb) l s) = sweep (fold_left (ins_plain keqb) l s).
+  Proof.
+    intros (Hp0 & Hc0 & Hv) s Hnd Hnew.
+    apply (sweeps_irrelevant keqb keqb_spec l s s); auto.
+    - exact (Inv_run keqb keqb_spec p0 c0 h Hp0 Hc0 Hv).
+    - apply ahead_refl.
+  Qed.
+
   (* Clear leaves an empty cache of unchanged capacity that behaves like a new one:
      identical outputs for EVERY continuation *)
   Theorem C13_clear_like_new p0 c0 (h h' : list label) :
@@ -117,4 +133,5 @@ Print Assumptions C13_keeps_newest.
 Print Assumptions C13_partition_granularity.
 Print Assumptions C13_newer_after.
 Print Assumptions C13_valid_order_sound.
+Print Assumptions C13_sweeps_irrelevant.
 Print Assumptions C13_clear_like_new.
